@@ -25,7 +25,7 @@ Definition apply_patch (ps : props) (d : patch) : props := fold_left (fun a e =>
 Inductive c19_case : Type :=
 | CSet (cfg rec : nat) (code : Z) (v : Z * string) (ok : bool) (after : patch) (gets : list (Z * option (Z * string)))
 | CProp (cfg rec : nat) (code : Z) (v : Z * string) (ok : bool) (after : patch)
-| CMsg (cfg : nat) (allowed : bool) (new : patch) (ok : bool) (after : patch)
+| CMsg (cfg rec : nat) (allowed : bool) (new : patch) (ok : bool) (after : patch)
 | CGen (cfg : nat) (new : patch) (ok : bool).
 
 Section Run.
@@ -51,9 +51,9 @@ Definition case_matches (c : c19_case) : bool :=
   | CProp cfg rec code v ok after =>
       match cfg_at cfg with None => false | Some ps =>
         result_matches ps (apply_proposal (recs_at rec) ps code v) ok (apply_patch ps after) end
-  | CMsg cfg allowed new ok after =>
+  | CMsg cfg rec allowed new ok after =>
       match cfg_at cfg with None => false | Some ps =>
-        result_matches ps (msg_set_all allowed ps (apply_patch ps new)) ok (apply_patch ps after) end
+        result_matches ps (msg_set_all allowed (recs_at rec) ps (apply_patch ps new)) ok (apply_patch ps after) end
   | CGen cfg new ok =>
       match cfg_at cfg with None => false | Some ps => Bool.eqb (validate (apply_patch ps new)) ok end
   end.
@@ -146,7 +146,7 @@ Definition case_clauses (c : c19_case) : list string :=
       match cfg_at cfg with None => ["cfg"%string] | Some ps => set_clauses ps code v ok (apply_patch ps after) gets end
   | CProp cfg rec code v ok after =>
       match cfg_at cfg with None => ["cfg"%string] | Some ps => set_clauses ps code v ok (apply_patch ps after) [] end
-  | CMsg cfg allowed new ok after =>
+  | CMsg cfg rec allowed new ok after =>
       match cfg_at cfg with None => ["cfg"%string] | Some ps =>
         let new := apply_patch ps new in let after := apply_patch ps after in
         if ok then (if allowed then [] else ["gate"%string]) ++
